@@ -1,4 +1,5 @@
 import GJS.Model.Run
+import GJS.Cert
 /-
   C17 — UnmarshalYAML enforces the same rules as UnmarshalJSON.
   The two emitters print the same validator statements; in the model this is the fact that `runAfter` and
@@ -330,6 +331,154 @@ example :
       intro x hx
       simp at hx
       rcases hx with rfl | rfl <;> exact .str
+
+
+/-! ### the decidable check the driver evaluates (`wcB`, Cert.lean) is sound for `WC` -/
+
+theorem noAnyOfB_eq (vs : List Validator) : noAnyOfB vs = noAnyOf vs := rfl
+
+theorem find_congr {α : Type} (p q : α → Bool) (l : List α) (h : ∀ a ∈ l, p a = q a) : l.find? p = l.find? q := by
+  induction l with
+  | nil => rfl
+  | cons a l ih =>
+    simp only [List.find?_cons]
+    rw [h a (by simp), ih (fun b hb => h b (by simp [hb]))]
+
+theorem bindsAlike_sound {fs : List Field} {k : String} (h : bindsAlike fs k = true) :
+    bindKey fs k = fs.find? (fun fl => fl.yamlKey = k) := by
+  unfold bindsAlike at h
+  simp only [Bool.and_eq_true, Bool.or_eq_true, List.all_eq_true, beq_iff_eq] at h
+  obtain ⟨hkeys, hm⟩ := h
+  have hfind : fs.find? (fun fl => decide (fl.jsonKey = k)) = fs.find? (fun fl => decide (fl.yamlKey = k)) := by
+    apply find_congr
+    intro a ha
+    rw [hkeys a ha]
+  unfold bindKey
+  rcases hm with hex | hno
+  · cases hf : fs.find? (fun f => decide (f.jsonKey = k)) with
+    | none => simp [hf] at hex
+    | some fl => simp only [hf] at hfind ⊢; exact hfind
+  · cases hf : fs.find? (fun f => decide (f.jsonKey = k)) with
+    | some fl => simp only [hf] at hfind ⊢; exact hfind
+    | none =>
+      simp only [hf] at hfind ⊢
+      rw [← hfind]
+      apply List.find?_eq_none.mpr
+      intro a ha
+      have := hno a ha
+      simpa using this
+
+structure Sound (env : Env) (f : Nat) : Prop where
+  one : ∀ ty j, wcB env f ty j = true → WC env ty j
+  all : ∀ t xs, wcBAll env f t xs = true → ∀ x ∈ xs, WC env t x
+  vals : ∀ t (kvs : List (String × Json)), wcBVals env f t kvs = true → ∀ p ∈ kvs, WC env t p.2
+  flds : ∀ fs (kvs : List (String × Json)), wcBFields env f fs kvs = true →
+      (∀ p ∈ kvs, bindKey fs p.1 = fs.find? (fun fl => fl.yamlKey = p.1)) ∧
+      (∀ p ∈ kvs, ∀ fld, bindKey fs p.1 = some fld → WC env fld.ty p.2)
+
+theorem sound_zero (env : Env) : Sound env 0 := by
+  constructor <;> intros <;> simp_all [wcB, wcBAll, wcBVals, wcBFields]
+
+
+theorem sound_step {env : Env} {f : Nat} (ih : Sound env f) : Sound env (f + 1) := by
+  refine ⟨?_, ?_, ?_, ?_⟩
+  · intro ty j h
+    unfold wcB at h
+    split at h
+    · exact .str
+    · exact .bool
+    · exact .float
+    · exact .int (by simpa using h)
+    · rename_i j'
+      exact .iface (by intro hn; subst hn; simp [Json.isNull] at h)
+    · exact .ptr (ih.one _ _ h)
+    · cases h
+    · -- a slice that is not a slice of ints
+      rename_i t xs hnot
+      cases t with
+      | int k => exact absurd rfl (hnot k)
+      | named n => exact .sliceNamed (ih.all _ _ h)
+      | _ => exact .slice (by intro k hk; cases hk) (by intro n hn; cases hn) (ih.all _ _ h)
+    · exact .map (ih.vals _ _ h)
+    · obtain ⟨hb, hw⟩ := ih.flds _ _ h
+      exact .strct hb hw
+    · -- a named type
+      split at h
+      · cases h
+      · rename_i d hres
+        split at h
+        · rename_i hm
+          simp only [Bool.and_eq_true, Bool.not_eq_true'] at h
+          exact .namedPlain hres (by simpa using hm) h.1 (ih.one _ _ h.2)
+        · rename_i hm
+          have hm' : d.hasMethod = true := by simpa using hm
+          split at h
+          · rename_i vs hb
+            simp only [Bool.and_eq_true] at h
+            exact .namedMethod hres hm' hb (by rw [← noAnyOfB_eq]; exact h.1) (ih.one _ _ h.2)
+          · rename_i vals wr ic cs m hb
+            simp only [Bool.and_eq_true] at h
+            have hc : enumCarrierOf d.ty = .string ∨ enumCarrierOf d.ty = .float64 ∨ enumCarrierOf d.ty = .bool ∨
+                ∃ k, enumCarrierOf d.ty = .int k := by
+              have := h.1
+              cases hcar : enumCarrierOf d.ty <;> simp_all [primCarrier]
+            exact .namedEnum hres hm' hb rfl hc (ih.one _ _ h.2)
+          · cases h
+    · cases h
+  · intro t xs h
+    cases xs with
+    | nil => intro x hx; cases hx
+    | cons x xs =>
+      simp only [wcBAll, Bool.and_eq_true] at h
+      intro y hy
+      rcases List.mem_cons.mp hy with rfl | hy
+      · exact ih.one _ _ h.1
+      · exact ih.all _ _ h.2 y hy
+  · intro t kvs h
+    cases kvs with
+    | nil => intro p hp; cases hp
+    | cons p rest =>
+      obtain ⟨k, x⟩ := p
+      simp only [wcBVals, Bool.and_eq_true] at h
+      intro q hq
+      rcases List.mem_cons.mp hq with rfl | hq
+      · exact ih.one _ _ h.1
+      · exact ih.vals _ _ h.2 q hq
+  · intro fs kvs h
+    cases kvs with
+    | nil =>
+      constructor
+      · intro p hp; cases hp
+      · intro p hp; cases hp
+    | cons p rest =>
+      obtain ⟨k, x⟩ := p
+      simp only [wcBFields, Bool.and_eq_true] at h
+      obtain ⟨⟨hba, hfld⟩, hrest⟩ := h
+      obtain ⟨hb, hw⟩ := ih.flds _ _ hrest
+      refine ⟨?_, ?_⟩
+      · intro q hq
+        rcases List.mem_cons.mp hq with rfl | hq
+        · exact bindsAlike_sound hba
+        · exact hb q hq
+      · intro q hq fld hbind
+        rcases List.mem_cons.mp hq with rfl | hq
+        · simp only at hbind
+          simp only [hbind] at hfld
+          exact ih.one _ _ hfld
+        · exact hw q hq fld hbind
+
+/-- **`wcB` is sound**: what the driver's decidable check admits is wire-compatible, so `yaml_json_agree` applies -/
+theorem wcB_sound (env : Env) (fuel : Nat) (ty : GoTy) (j : Json) (h : wcB env fuel ty j = true) : WC env ty j := by
+  have : ∀ f, Sound env f := by
+    intro f; induction f with
+    | zero => exact sound_zero env
+    | succ f ih => exact sound_step ih
+  exact (this fuel).one ty j h
+
+/-- the checked form of C17: a document the driver certifies is decoded identically by both methods -/
+theorem certified_yaml_json_agree (env : Env) (cf : Nat) (ty : GoTy) (j : Json) (h : wcB env cf ty j = true) :
+    ∀ fuel, decode .yaml env fuel ty j = decode .json env fuel ty j :=
+  yaml_json_agree env ty j (wcB_sound env cf ty j h)
 
 
 end GJS.Props.C17
